@@ -134,7 +134,16 @@ def _flip(s):
     return [{'list': 'tuple', 'tuple': 'list'}[s[0]]] + [_flip(c) for c in s[1:]]
 
 
-COMP = ['absent', 'scalar', 'same', 'sameflip', 'flat5', 'otherdict', 'partialdict', 'range7', 'keysview']
+def _reorder(s):
+    """the same structure with every dict built in the opposite insertion order"""
+    if s == 'L':
+        return s
+    if s[0] == 'dict':
+        return ['dict'] + [[k, _reorder(c)] for k, c in s[1:]][::-1]
+    return [s[0]] + [_reorder(c) for c in s[1:]]
+
+
+COMP = ['absent', 'scalar', 'same', 'sameflip', 'samereordered', 'flat5', 'otherdict', 'partialdict', 'range7', 'keysview']
 
 
 def companion(kind, s, tag):
@@ -144,6 +153,8 @@ def companion(kind, s, tag):
         return build(s, lambda p: tag + '/' + '/'.join(map(str, p)))
     if kind == 'sameflip':           # same lengths / keys, but every list is a tuple and every tuple a list: still matched element by element
         return build(_flip(s), lambda p: tag + '/' + '/'.join(map(str, p)))
+    if kind == 'samereordered':      # the same keys at every dict, inserted in the opposite order: dicts are matched by KEY
+        return build(_reorder(s), lambda p: tag + '/' + '/'.join(map(str, p)))
     if kind == 'flat5':
         return [tag + str(i) for i in range(5)]
     if kind == 'otherdict':
@@ -160,7 +171,7 @@ def companion(kind, s, tag):
 def comp_at(kind, s, tag, path, default):
     if kind == 'absent':
         return default
-    if kind in ('same', 'sameflip'):
+    if kind in ('same', 'sameflip', 'samereordered'):
         return tag + '/' + '/'.join(map(str, path))
     return companion(kind, s, tag)
 
